@@ -493,10 +493,101 @@ def propagate_constants_straightline(fnode):
     return changed
 
 
+def sink_callable_uses_into_arms(fnode, counter):
+    """if c: v = <callable A> else: v = <callable B>   followed by statements that call v(..)
+    ->  the statements up to the last mention of v are moved into both arms (and v gets a name of its own per arm), so that each arm's
+    calls can be resolved to its own callable.  Exclusive arms, the moved statements ran right after them: plain code motion."""
+    changed = False
+    dcount = {}
+    for n in ast.walk(fnode):
+        if isinstance(n, ast.FunctionDef) and n is not fnode:
+            dcount[n.name] = dcount.get(n.name, 0) + 1
+
+    def callable_value(v):
+        return isinstance(v, ast.Lambda) or (isinstance(v, ast.Name) and dcount.get(v.id) == 1)
+
+    def rewrite(stmts):
+        nonlocal changed
+        for fld_owner in stmts:
+            for fld in ("body", "orelse", "finalbody"):
+                sub = getattr(fld_owner, fld, None)
+                if isinstance(sub, list) and sub and isinstance(sub[0], ast.stmt) and not isinstance(fld_owner, (ast.FunctionDef, ast.AsyncFunctionDef, ast.ClassDef)):
+                    setattr(fld_owner, fld, rewrite(sub))
+        for i, st in enumerate(stmts):
+            if not (isinstance(st, ast.If) and st.orelse) or i + 1 >= len(stmts):
+                continue
+            arms = [st.body, st.orelse]
+            if len(st.orelse) == 1 and isinstance(st.orelse[0], ast.If):
+                continue            # elif chains: keep it simple
+            if any(a and isinstance(a[-1], (ast.Return, ast.Raise, ast.Continue, ast.Break)) for a in arms):
+                continue
+            cands = None
+            for a in arms:
+                here = {}
+                for x in a:
+                    if isinstance(x, ast.Assign) and len(x.targets) == 1 and isinstance(x.targets[0], ast.Name):
+                        here[x.targets[0].id] = x
+                ok = {k for k, x in here.items() if callable_value(x.value)}
+                cands = ok if cands is None else cands & ok
+            for v in sorted(cands or ()):
+                # v is bound nowhere else, and read only after this statement
+                binds = [x for x in ast.walk(fnode) if isinstance(x, ast.Name) and x.id == v and isinstance(x.ctx, (ast.Store, ast.Del))]
+                if len(binds) != 2:
+                    continue
+                tail = stmts[i + 1:]
+                last = max((j for j, t in enumerate(tail) if any(isinstance(x, ast.Name) and x.id == v for x in ast.walk(t))), default=None)
+                if last is None:
+                    continue
+                inside = {id(x) for t in [st] + tail for x in ast.walk(t)}
+                if any(isinstance(x, ast.Name) and x.id == v and id(x) not in inside for x in ast.walk(fnode)):
+                    continue
+                region = tail[:last + 1]
+                if any(isinstance(x, (ast.Return, ast.Break, ast.Continue)) for t in region for x in ast.walk(t) if not isinstance(t, (ast.For, ast.While)) or isinstance(x, ast.Return)):
+                    continue
+                loads = [x for t in region for x in ast.walk(t) if isinstance(x, ast.Name) and x.id == v]
+                par = {}
+                for t in region:
+                    for n in ast.walk(t):
+                        for c in ast.iter_child_nodes(n):
+                            par[c] = n
+                if not all(isinstance(par.get(x), ast.Call) and par[x].func is x for x in loads):
+                    continue
+                for k, a in enumerate(arms):
+                    nm = f"{v}__a{counter[0]}_{k}"
+                    ren = _Sub({}, {v: nm})
+                    for j, x in enumerate(a):
+                        a[j] = ren.visit(x)
+                    a.extend(ren.visit(copy.deepcopy(t)) for t in region)
+                counter[0] += 1
+                changed = True
+                return stmts[:i + 1] + tail[last + 1:]
+        return stmts
+    for _ in range(4):
+        before = changed
+        changed = False
+        fnode.body = rewrite(fnode.body)
+        if not changed:
+            changed = before
+            break
+        changed = True
+    if changed:
+        ast.fix_missing_locations(fnode)
+    return changed
+
+
 def propagate_callable_locals(fnode):
     """m = obj.method (bound once, obj a cheap path or a call result read once) and every use is a call m(...)  ->  obj.method(...)"""
     counts = {}
     defs = {}
+    dcount = {}
+    for n in ast.walk(fnode):
+        if isinstance(n, ast.FunctionDef) and n is not fnode:
+            dcount[n.name] = dcount.get(n.name, 0) + 1
+    stores = {}
+    for n in ast.walk(fnode):
+        if isinstance(n, ast.Name) and isinstance(n.ctx, (ast.Store, ast.Del)):
+            stores[n.id] = stores.get(n.id, 0) + 1
+    local_defs = {k for k, c in dcount.items() if c == 1 and not stores.get(k)}
     for n in walk_own(fnode):
         if isinstance(n, ast.Assign):
             for t in n.targets:
@@ -504,6 +595,9 @@ def propagate_callable_locals(fnode):
                     if isinstance(x, ast.Name) and isinstance(x.ctx, ast.Store):
                         counts[x.id] = counts.get(x.id, 0) + 1
             if len(n.targets) == 1 and isinstance(n.targets[0], ast.Name) and isinstance(n.value, ast.Attribute):
+                defs[n.targets[0].id] = n
+            # g = f  with f a local function defined once: calls of g are calls of f
+            if len(n.targets) == 1 and isinstance(n.targets[0], ast.Name) and isinstance(n.value, ast.Name) and n.value.id in local_defs and n.value.id != n.targets[0].id:
                 defs[n.targets[0].id] = n
         elif isinstance(n, (ast.AugAssign, ast.For, ast.AnnAssign)):
             for x in ast.walk(n.target):
@@ -2324,6 +2418,9 @@ def partial_evaluate(repo, max_rounds=8):
             if steps and propagate_constants_straightline(f.node):
                 ch = True
                 steps.append("constants-in-order")
+            if sink_callable_uses_into_arms(f.node, counter):
+                ch = True
+                steps.append("callables-per-arm")
             if steps and propagate_callable_locals(f.node):
                 ch = True
                 steps.append("callables")
